@@ -47,24 +47,56 @@ func (hostileCodec) Unmarshal(data []byte, v any) error {
 }
 func (hostileCodec) Name() string { return "proto" }
 
-var (
-	sharedGrpcMu    sync.Mutex
-	sharedGrpcAddrs []string
-	sharedGrpcTurn  int
+// The shared scripted gRPC servers. The gRPC guns have no Close(): every instance of every run leaves its connection
+// open, client and server end in this process. A server is therefore RETIRED after grpcUsesPerServer runs and stopped
+// (which closes all those connections) as soon as the last run using it has ended; otherwise a thorough tier runs
+// the driver out of descriptors.
+const (
+	grpcServers       = 8
+	grpcUsesPerServer = 60
 )
 
-// sharedGrpc: a few scripted gRPC servers for the whole driver process, used in turn (runs that make the server go
-// away get their own). Every gun instance opens its own connection: one server port would run out of client ports.
-func sharedGrpc() string {
+type grpcShared struct {
+	addr   string
+	stop   func()
+	uses   int
+	active int
+}
+
+var (
+	sharedGrpcMu   sync.Mutex
+	sharedGrpcPool []*grpcShared
+	sharedGrpcTurn int
+)
+
+// acquireGrpc hands out one of a few scripted gRPC servers (every gun instance opens its own connection: one server
+// port would run out of client ports); release must be called when the run is over.
+func acquireGrpc() (addr string, release func()) {
 	sharedGrpcMu.Lock()
 	defer sharedGrpcMu.Unlock()
-	if len(sharedGrpcAddrs) < 8 {
-		a, _ := newHostileGrpc(0)
-		sharedGrpcAddrs = append(sharedGrpcAddrs, a)
-		return a
+	if len(sharedGrpcPool) < grpcServers {
+		a, stop := newHostileGrpc(0)
+		sharedGrpcPool = append(sharedGrpcPool, &grpcShared{addr: a, stop: stop})
 	}
 	sharedGrpcTurn++
-	return sharedGrpcAddrs[sharedGrpcTurn%len(sharedGrpcAddrs)]
+	i := sharedGrpcTurn % len(sharedGrpcPool)
+	g := sharedGrpcPool[i]
+	g.uses++
+	g.active++
+	if g.uses >= grpcUsesPerServer {
+		// retire: later runs get a fresh server in this slot
+		a, stop := newHostileGrpc(0)
+		sharedGrpcPool[i] = &grpcShared{addr: a, stop: stop}
+	}
+	return g.addr, func() {
+		sharedGrpcMu.Lock()
+		g.active--
+		retired := g.uses >= grpcUsesPerServer && g.active == 0
+		sharedGrpcMu.Unlock()
+		if retired {
+			go g.stop()
+		}
+	}
 }
 
 func newHostileGrpc(stopAfter int) (addr string, stop func()) {
